@@ -114,6 +114,7 @@ public:
         if (mk.geti("outs") > 0 && w.chance(0.75)) { Json o = Json::object(); o["op"] = "load"; o["variant"] = 0.0; Json a = Json::array(); a.push(o); for (auto &q : ops.a) a.push(q); ops = a; }
         p["ops"] = ops;
         p["persisted"] = w.pick<std::string>({"no", "no", "binary", "ascii"});
+        p["alone_first"] = w.chance(0.25);
         int nt = c.range(2, 4);
         Json tasks = Json::array();
         bool same = c.chance(0.3); std::string samecall = c.pick(callMenu());
@@ -159,10 +160,15 @@ public:
         if (p.has("tasks")) for (auto const &tl : p.at("tasks").a) { if (!tl.isArr() || tl.a.empty()) continue; TaskPlan tp; for (auto const &q : tl.a) { tp.names.push_back(q.gets("name")); tp.nx.push_back((int)q.geti("nx", 1)); tp.rot.push_back((int)q.geti("rot", 0)); } T.push_back(tp); }
         if (T.size() < 2) { out.nontrivial = false; return out; }
         std::string before_bytes; { std::ostringstream os; cg.write(os, TasGrid::mode_binary); before_bytes = os.str(); }
-        {
+        // The reference executes every call alone on a COPY (so that a lazily built cache of the shared grid stays in the state the history
+        // left it). In most runs it comes AFTER the concurrent phase: process-wide lazily filled state (function-local statics, global tables)
+        // must meet the concurrent callers cold at least in the first runs of every worker process.
+        bool alone_first = p.getb("alone_first");
+        auto runAlone = [&]() {
             TasmanianSparseGrid copy(cg);
             for (auto &tp : T) for (size_t k = 0; k < tp.names.size(); k++) tp.alone.push_back(doCall(copy, tp.names[k], probes, tp.nx[k], tp.rot[k]));
-        }
+        };
+        if (alone_first) runAlone();
         bool wavelet = grid.isWavelet();
         std::string sclass = stateClass(grid);
         // ---- concurrent phase under the simulator ------------------------------------------------------------
@@ -177,6 +183,8 @@ public:
             }
             for (auto &x : th) x.join();
         });
+        if (!alone_first) runAlone();
+        st.inc(alone_first ? "order.reference_before_concurrent" : "order.concurrent_before_reference");
         st.inc("sim.sched_steps", (long)R.steps); st.inc("sim.context_switches", (long)R.switches); st.inc("sim.memory_events", (long)R.mem_events);
         st.inc("fault.preemption_at_memory_access", (long)R.preemptions); st.inc(std::string("fault.strategy.") + std::to_string(cfg.strategy));
         st.inc("sim.caller_tasks", (long)T.size());
